@@ -426,6 +426,11 @@ func reifyValue(
 		return v, nil
 	}
 
+	if baseType == tRegexp {
+		// a regular expression is a primitive (its pattern), not a struct to descend into
+		return reifyPrimitive(opts, val, t, baseType)
+	}
+
 	if baseType.Kind() == reflect.Struct {
 		sub, err := val.toConfig(opts.opts)
 		if err != nil {
@@ -539,6 +544,11 @@ func reifyMergeValue(
 		}
 		// an element of a slice, array or map may be a pointer to the unpacker
 		return pointerize(t, old.Type(), old), nil
+	}
+
+	if baseType == tRegexp {
+		// the new pattern replaces the one the target holds
+		return reifyPrimitive(opts, val, t, baseType)
 	}
 
 	switch baseType.Kind() {
